@@ -1,6 +1,6 @@
 --------------------------- MODULE MC_Producers ---------------------------
 (* Model-checking instance of Producers.tla: input sections with and without a processed-by field, with it first or
-   not, with walrus already recorded (same or other version), with a repeated field name.  (A section with a field name outside the tool convention is
+   not, with walrus already recorded (same or other version), with a repeated field name, a field without values, a repeated value name.  (A section with a field name outside the tool convention is
    rejected by the section reader walrus uses and dropped with a warning: not a well-formed producers section, not modelled.) *)
 EXTENDS Producers
 F(n, vals) == [name |-> n, values |-> vals]
@@ -11,6 +11,9 @@ InputsSmall == {
   <<F("language", <<<<"a", "1">>>>), F("processed-by", <<<<"a", "2">>>>), F("sdk", <<<<"a", "1">>>>)>>,
   <<F("processed-by", <<<<"walrus", "W">>>>)>>,
   <<F("language", <<<<"a", "1">>>>), F("processed-by", <<<<"a", "1">>, <<"walrus", "old">>>>)>>,
-  <<F("sdk", <<<<"a", "1">>>>), F("sdk", <<<<"b", "1">>>>)>>
+  <<F("sdk", <<<<"a", "1">>>>), F("sdk", <<<<"b", "1">>>>)>>,
+  \* a field without values, and one value name twice in a field: the input is preserved as it is (nothing is merged)
+  <<F("language", <<>>), F("sdk", <<<<"a", "1">>>>)>>,
+  <<F("language", <<<<"a", "1">>, <<"a", "2">>>>)>>
 }
 =============================================================================
